@@ -203,9 +203,21 @@ def p4(repo, res):
         for w in collect_writes(fn, classes):
             if w.kind == "store" and w.attr in ("_position", "_orientation"):
                 writers.setdefault(qn.replace(" (setter)", ""), {"mod": m, "fn": fn, "attrs": set(), "first": w})["attrs"].add(w.attr)
+    import rules_t1
     for q, info in sorted(writers.items()):
         known = q in POSE_WRITERS
         both = info["attrs"] == {"_position", "_orientation"}
+        if not known:
+            # a helper all of whose pose stores are self-slices (`obj._position = obj._position[:m0]`) only trims paths back to what they
+            # were: the restoring half of the level-2 tiling extracted into a function, not a new pose writer
+            try:
+                h = rules_t1.helper_summary(info["fn"])
+            except RecursionError:
+                h = {"restores": set(), "overwrites": {"?"}}
+            if not h["overwrites"] and info["attrs"] <= h["restores"]:
+                res.ob(f"P4:{q}", both, {"rule": "P4", "writer": q, "writes": sorted(info["attrs"]), "triaged": "pure restoring helper (self-slices only)"})
+                if both:
+                    continue
         res.ob(f"P4:{q}", known and both, {"rule": "P4", "writer": q, "writes": sorted(info["attrs"]), "triaged": POSE_WRITERS.get(q)})
         if not known:
             res.add(Finding("P4", info["mod"].rel, q, info["first"].stmt, "pose attribute written outside the triaged set of pose writers", info["first"].stmt.lineno))
@@ -380,7 +392,7 @@ MANIFEST = {
             "anchor (frame typing), all rotate_from_* forms delegate to rotate() with anchor/start/degrees forwarded, every validation precedes the first "
             "write to the pose including in-place writes through aliases (a rejected call changes nothing), and position/orientation are only ever "
             "written together by a fixed set of functions. The integer padding arithmetic (path_padding_param) needs linear arithmetic over unbounded "
-            "path lengths and is not decided. Also decided: both pose paths come from one padding computation, every path extension is edge padding, and only the updated object's paths are written in place (alias analysis).",
+            "path lengths and is not decided. Also decided: both pose paths come from one padding computation, every path extension is edge padding, and only the updated object's paths are written in place (alias analysis). Round 3: rotate(None) is the single identity rotation (rank of the quaternion on the None path, P7) and each rotate_from_* hands its own unmodified parameters to the SciPy constructor (P2).",
     "design_ref": "DESIGN.md §3 C09",
     "note": "Trusted: FRAME interpreter + declarations; summaries of the validators (return their argument) and of path_padding (returns aliases of the pose paths).",
     "technique": "static analysis: frame-type abstract interpretation, structural delegation check, taint/ordering dataflow, who-may-write query",
